@@ -18,6 +18,7 @@ package pubsub
 
 //@ pred tlen(t ref) int = isNoLimit(t) ? nl(t).length : (isHard(t) ? hd(t).length : qt(t).length)
 //@ pred thard(t ref) int = isHard(t) ? hd(t).capacity : qt(t).hardLimit
+//@ pred tcap(t ref) int = isNoLimit(t) ? 9223372036854775807 : (isHard(t) ? hd(t).capacity : qt(t).softQuota)
 //@ pred tknown(t ref) = isNoLimit(t) || isHard(t) || isQuota(t)
 
 // tinv: representation invariant of a tracker. "Len never exceeds the hard limit".
@@ -35,68 +36,78 @@ package pubsub
 //@ pred tunchanged(t ref) = nl(t).length == old(nl(t).length) && hd(t).length == old(hd(t).length) && hd(t).capacity == old(hd(t).capacity)
 //@ |  && qt(t).length == old(qt(t).length) && qt(t).softQuota == old(qt(t).softQuota) && qt(t).credit == old(qt(t).credit) && qt(t).hardLimit == old(qt(t).hardLimit)
 
+// Ownership: a tracker (and every queue entry) is owned by one container and
+// may only be touched while that container's mutex is held. The owner's mutex
+// is recorded in a ghost field.
+//@ ghost queueNoLimitTrackerImpl.guard ref
+//@ ghost queueHardLimitTracker.guard ref
+//@ ghost queueLimitTrackerImpl.guard ref
+//@ pred tguard(t ref) ref = isNoLimit(t) ? nl(t).guard : (isHard(t) ? hd(t).guard : qt(t).guard)
+//@ guarded queueNoLimitTrackerImpl.{length} by ghost:guard
+//@ guarded queueHardLimitTracker.{length} by ghost:guard
+//@ guarded queueLimitTrackerImpl.{length,softQuota,credit} by ghost:guard
+
 //@ modset tfields(t) = cast(t, "*queueNoLimitTrackerImpl").length, cast(t, "*queueHardLimitTracker").length, cast(t, "*queueLimitTrackerImpl").length, cast(t, "*queueLimitTrackerImpl").softQuota, cast(t, "*queueLimitTrackerImpl").credit
 
 //@ iface queueLimitTracker.len
-//@   requires tknown(self)
+//@   requires tknown(self) && held(tguard(self))
 //@   ensures result == tlen(self)
 
 //@ iface queueLimitTracker.cap
-//@   requires tknown(self)
-//@   ensures isHard(self) ==> result == hd(self).capacity
-//@   ensures isQuota(self) ==> result == qt(self).softQuota
-//@   ensures isNoLimit(self) ==> result == 9223372036854775807
+//@   requires tknown(self) && held(tguard(self))
+//@   ensures result == tcap(self)
 
 //@ iface queueLimitTracker.add
-//@   requires tinv(self)
+//@   requires tinv(self) && held(tguard(self))
 //@   modifies tfields(self)
 //@   ensures tinv(self)
 //@   ensures admitted: old(admits(self)) ==> result == nil && tlen(self) == old(tlen(self)) + 1
+//@   ensures nofreecap: old(tcap(self) <= tlen(self)) ==> tcap(self) <= tlen(self)
 //@   ensures refused: !old(admits(self)) ==> result == old(why(self)) && result != nil && tunchanged(self)
 
 //@ iface queueLimitTracker.remove
-//@   requires tinv(self) && tlen(self) > 0
+//@   requires tinv(self) && tlen(self) > 0 && held(tguard(self))
 //@   modifies tfields(self)
 //@   ensures tinv(self)
 //@   ensures tlen(self) == old(tlen(self)) - 1
 
 //@ func (*queueNoLimitTrackerImpl).len
-//@   props C05 C06
+//@   props C05 C06 C13
 //@   implements queueLimitTracker.len
 //@ func (*queueNoLimitTrackerImpl).cap
-//@   props C05 C06
+//@   props C05 C06 C13
 //@   implements queueLimitTracker.cap
 //@ func (*queueNoLimitTrackerImpl).add
-//@   props C05 C06
+//@   props C05 C06 C13
 //@   implements queueLimitTracker.add
 //@ func (*queueNoLimitTrackerImpl).remove
-//@   props C05 C06
+//@   props C05 C06 C13
 //@   implements queueLimitTracker.remove
 
 //@ func (*queueHardLimitTracker).len
-//@   props C05 C06
+//@   props C05 C06 C13
 //@   implements queueLimitTracker.len
 //@ func (*queueHardLimitTracker).cap
-//@   props C05 C06
+//@   props C05 C06 C13
 //@   implements queueLimitTracker.cap
 //@ func (*queueHardLimitTracker).add
-//@   props C05 C06
+//@   props C05 C06 C13
 //@   implements queueLimitTracker.add
 //@ func (*queueHardLimitTracker).remove
-//@   props C05 C06
+//@   props C05 C06 C13
 //@   implements queueLimitTracker.remove
 
 //@ func (*queueLimitTrackerImpl).len
-//@   props C05 C06
+//@   props C05 C06 C13
 //@   implements queueLimitTracker.len
 //@ func (*queueLimitTrackerImpl).cap
-//@   props C05 C06
+//@   props C05 C06 C13
 //@   implements queueLimitTracker.cap
 //@ func (*queueLimitTrackerImpl).add
-//@   props C05 C06
+//@   props C05 C06 C13
 //@   implements queueLimitTracker.add
 //@ func (*queueLimitTrackerImpl).remove
-//@   props C05 C06
+//@   props C05 C06 C13
 //@   implements queueLimitTracker.remove
 
 
@@ -105,9 +116,12 @@ package pubsub
 // ---------------------------------------------------------------------------
 
 //@ ghost Queue.view seq
+//@ ghost entry.guard ref
+//@ guarded entry.{link} by ghost:guard
 
 //@ pred qinv(q *Queue) = q != nil && q.front != nil && allocated(q.front) && len(q.view) >= 0
-//@ |  && q.tracker != nil && tinv(q.tracker) && tlen(q.tracker) == len(q.view)
+//@ |  && q.tracker != nil && tinv(q.tracker) && tlen(q.tracker) == len(q.view) && tguard(q.tracker) == q.mu && q.front.guard == q.mu
+//@ |  && (forall i: int :: 0 <= i && i < len(q.view) ==> cast(q.view[i], "*entry").guard == q.mu)
 //@ |  && (len(q.view) == 0 ==> q.front.link == nil && q.back == q.front)
 //@ |  && (len(q.view) > 0 ==> q.front.link == q.view[0] && q.back == q.view[len(q.view) - 1])
 //@ |  && (forall i: int :: 0 <= i && i < len(q.view) - 1 ==> cast(q.view[i], "*entry").link == q.view[i + 1])
@@ -120,22 +134,141 @@ package pubsub
 //@   requires tracker != nil && tinv(tracker) && tlen(tracker) == 0
 //@   ensures qinv(result) && fresh(result) && len(result.view) == 0 && result.closed == false && result.tracker == tracker
 //@   ghostset result.view = []
+//@   ghostset cast(tracker, "*queueNoLimitTrackerImpl").guard = result.mu
+//@   ghostset cast(tracker, "*queueHardLimitTracker").guard = result.mu
+//@   ghostset cast(tracker, "*queueLimitTrackerImpl").guard = result.mu
+//@   ghostset result.front.guard = result.mu
+//@   modifies cast(tracker, "*queueNoLimitTrackerImpl").guard, cast(tracker, "*queueHardLimitTracker").guard, cast(tracker, "*queueLimitTrackerImpl").guard
 
 //@ func (*Queue).doAdd
-//@   props C05
-//@   requires qinv(q)
-//@   modifies q.back, q.back.link, q.view, tfields(q.tracker)
+//@   props C05 C07 C13
+//@   requires qinv(q) && qcounters(q) && wkNE(q) && wkUI(q) && held(q.mu)
+//@   modifies q.back, q.back.link, q.view, tfields(q.tracker), qwakes(q)
+//@   ensures[C07] qcounters(q) && wkNE(q) && wkUI(q) && (old(wkUA(q)) ==> wkUA(q))
+//@   ensures[C07] iterwake: result == nil && q.wUI > 0 ==> q.sUI > 0
 //@   ghostset q.view = (result == nil ? old(q.view) + [q.back] : old(q.view))
+//@   ghostset q.back.guard = (result == nil ? q.mu : q.back.guard)
 //@   ensures qinv(q)
 //@   ensures closed: old(q.closed) ==> result == ErrQueueClosed && q.view == old(q.view) && tunchanged(q.tracker)
 //@   ensures refused: !old(q.closed) && !old(admits(q.tracker)) ==> result == old(why(q.tracker)) && result != nil && q.view == old(q.view) && tunchanged(q.tracker)
 //@   ensures added: !old(q.closed) && old(admits(q.tracker)) ==> result == nil && q.view == old(q.view) + [q.back] && cast(q.back, "*entry").item == item && fresh(q.back)
 
 //@ func (*Queue).popFront
-//@   props C05
-//@   requires qinv(q) && len(q.view) > 0
-//@   modifies q.back, q.front.link, q.view, tfields(q.tracker)
+//@   props C05 C07 C13
+//@   requires qinv(q) && qcounters(q) && len(q.view) > 0 && held(q.mu)
+//@   modifies q.back, q.front.link, q.view, tfields(q.tracker), qwakes(q)
+//@   ensures[C07] qcounters(q) && wkUA(q) && wkUI(q) && (old(wkNE(q)) ==> wkNE(q))
 //@   ghostset q.view = old(q.view)[1:]
 //@   ensures qinv(q)
 //@   ensures q.view == old(q.view)[1:]
 //@   ensures result == cast(old(q.view[0]), "*entry").item
+
+// ---------------------------------------------------------------------------
+// Queue under its mutex: lock invariant, atomic sections, public operations.
+// `old(...)` in functions with "option old section" refers to the start of
+// the current atomic section (the last Lock / return from cond.Wait).
+// ---------------------------------------------------------------------------
+
+// Wake-up accounting (C07): per condition variable and waiter kind, ghost
+// counters of parked-not-notified (w*) and notified-not-yet-running (s*)
+// goroutines. Kinds: take = Wait/Receive on nempty; add = BlockingAdd on
+// nupdates; iter = the non-destructive iterator (waitForNew) on nupdates.
+//@ ghost Queue.wNE int
+//@ ghost Queue.sNE int
+//@ ghost Queue.wUA int
+//@ ghost Queue.sUA int
+//@ ghost Queue.wUI int
+//@ ghost Queue.sUI int
+//@ waitkind Queue.nempty take wNE sNE = len(q.view) > 0 || q.closed
+//@ waitkind Queue.nupdates add wUA sUA = tcap(q.tracker) > tlen(q.tracker) || q.closed
+//@ waitkind Queue.nupdates iter wUI sUI = q.closed
+
+// qwake: no un-notified waiter while its condition holds (DESIGN 5.4):
+// W > 0 && enabled ==> S > 0. The iter kind's condition ("an item this
+// iterator has not seen is queued") is per waiter; it becomes true for every
+// parked iterator on each successful add, which is a postcondition of doAdd.
+//@ pred qcounters(q *Queue) = q.wNE >= 0 && q.sNE >= 0 && q.wUA >= 0 && q.sUA >= 0 && q.wUI >= 0 && q.sUI >= 0
+//@ pred wkNE(q *Queue) = q.wNE > 0 && (len(q.view) > 0 || q.closed) ==> q.sNE > 0
+//@ pred wkUA(q *Queue) = q.wUA > 0 && (tcap(q.tracker) > tlen(q.tracker) || q.closed) ==> q.sUA > 0
+//@ pred wkUI(q *Queue) = q.wUI > 0 && q.closed ==> q.sUI > 0
+//@ pred qwake(q *Queue) = qcounters(q) && wkNE(q) && wkUA(q) && wkUI(q)
+
+//@ lockinv Queue.mu(q) = qinv(q)
+//@ lockinv[C07] Queue.mu(q) = qwake(q)
+//@ lockhavoc Queue.mu(q) = q.closed, q.back, q.view, entry.link, tfields(q.tracker), q.wNE, q.sNE, q.wUA, q.sUA, q.wUI, q.sUI
+//@ stutter Queue.mu(q) = unmodified(q.closed, q.back, q.view, entry.link, tfields(q.tracker))
+//@ cond Queue.nempty lock mu
+//@ cond Queue.nupdates lock mu
+//@ guarded Queue.{closed,back} by mu
+
+//@ func (*Queue).Add
+//@   props C05 C07 C13
+//@   option old section
+//@   requires q != nil && !held(q.mu)
+//@   ensures closed: old(q.closed) ==> result == ErrQueueClosed && q.view == old(q.view)
+//@   ensures refused: !old(q.closed) && !old(admits(q.tracker)) ==> result == old(why(q.tracker)) && result != nil && q.view == old(q.view)
+//@   ensures added: !old(q.closed) && old(admits(q.tracker)) ==> result == nil && q.view == old(q.view) + [q.back] && cast(q.back, "*entry").item == item
+//@   ensures q.closed == old(q.closed) && len(q.view) <= (isNoLimit(q.tracker) ? len(q.view) : thard(q.tracker))
+//@   modifies q.back, old(q.back).link, q.view, tfields(q.tracker), qwakes(q)
+
+//@ func (*Queue).Len
+//@   props C05 C13
+//@   option old section
+//@   requires q != nil && !held(q.mu)
+//@   ensures result == len(q.view) && q.view == old(q.view)
+
+//@ func (*Queue).Remove
+//@   props C05 C07 C13
+//@   option old section
+//@   requires q != nil && !held(q.mu)
+//@   ensures empty: len(old(q.view)) == 0 ==> result1 == false && q.view == old(q.view)
+//@   ensures pop: len(old(q.view)) > 0 ==> result1 == true && result0 == cast(old(q.view[0]), "*entry").item && q.view == old(q.view)[1:]
+//@   ensures q.closed == old(q.closed)
+//@   modifies q.back, q.front.link, q.view, tfields(q.tracker), qwakes(q)
+
+//@ func (*Queue).Close
+//@   props C05 C07 C13
+//@   option old section
+//@   requires q != nil && !held(q.mu)
+//@   ensures result == nil && q.closed == true && q.view == old(q.view) && tunchanged(q.tracker)
+//@   modifies q.closed, qwakes(q)
+
+//@ modset qguarded(q) = q.closed, q.back, q.view, entry.link, tfields(q.tracker)
+//@ modset qwakes(q) = q.wNE, q.sNE, q.wUA, q.sUA, q.wUI, q.sUI
+
+//@ func (*Queue).unsafeWaitWhileEmpty
+//@   props C05 C07 C13
+//@   option old section
+//@   option waits
+//@   option waitkind take
+//@   requires q != nil && held(q.mu) && qinv(q) && qwake(q) && ctx != nil
+//@   modifies qguarded(q), qwakes(q)
+//@   ensures held(q.mu) && qinv(q)
+//@   ensures[C07] qwake(q)
+//@   ensures noeffect: unmodified(qguarded(q))
+//@   ensures result == nil ==> len(q.view) > 0
+//@   ensures result != nil ==> len(q.view) == 0
+//@   ensures result != nil ==> (result == ErrQueueClosed && q.closed && len(q.view) == 0) || (result != ErrQueueClosed && done(ctx))
+//@   loop 1 invariant held(q.mu) && qinv(q) && qcounters(q) && wkUA(q) && wkUI(q) && unmodified(qguarded(q))
+
+//@ func (*Queue).Wait
+//@   props C05 C07 C13
+//@   option old section
+//@   requires q != nil && !held(q.mu) && ctx != nil
+//@   ensures item: result1 == nil ==> len(old(q.view)) > 0 && result0 == cast(old(q.view[0]), "*entry").item && q.view == old(q.view)[1:]
+//@   ensures noitem: result1 != nil ==> q.view == old(q.view) && tunchanged(q.tracker) && ((result1 == ErrQueueClosed && q.closed && len(q.view) == 0) || (result1 != ErrQueueClosed && done(ctx)))
+//@   ensures q.closed == old(q.closed)
+//@   modifies q.back, q.front.link, q.view, tfields(q.tracker), qwakes(q)
+
+//@ func (*Queue).BlockingAdd
+//@   props C05 C07 C13
+//@   option old section
+//@   option waitkind add
+//@   requires q != nil && !held(q.mu) && ctx != nil
+//@   ensures closed: result == ErrQueueClosed ==> old(q.closed) && q.view == old(q.view) && tunchanged(q.tracker)
+//@   ensures added: result == nil ==> !old(q.closed) && old(admits(q.tracker)) && q.view == old(q.view) + [q.back] && cast(q.back, "*entry").item == item
+//@   ensures failed: result != nil ==> q.view == old(q.view) && tunchanged(q.tracker)
+//@   ensures ctxerr: result != nil && result != ErrQueueClosed && !(!old(admits(q.tracker)) && result == old(why(q.tracker))) ==> done(ctx)
+//@   ensures q.closed == old(q.closed)
+//@   modifies q.back, old(q.back).link, q.view, tfields(q.tracker), qwakes(q)
+//@   loop 1 invariant held(q.mu) && qinv(q) && qcounters(q) && wkNE(q) && wkUI(q) && unmodified(qguarded(q))
